@@ -414,6 +414,61 @@ def variant_source(kind, source):
                 return n
 
         return ast.unparse(ast.fix_missing_locations(N().visit(tree)))
+    if kind == "extractmethod":
+        # in every method with >= 6 top-level statements, a run of straight-line statements from the middle of the body
+        # (no return / break / continue / yield / nested def inside, not the docstring) moves into a new private method
+        # of the same class; locals it reads become parameters, locals it binds and that are used later are returned
+        counter = [0]
+        for cls_ in [n for n in ast.walk(tree) if isinstance(n, ast.ClassDef)]:
+            new_methods = []
+            for fn in [n for n in cls_.body if isinstance(n, ast.FunctionDef)]:
+                if not fn.args.args or fn.args.args[0].arg != "self" or fn.name.startswith("__") or fn.decorator_list:
+                    continue
+                body = fn.body
+                start0 = 1 if (body and isinstance(body[0], ast.Expr) and isinstance(body[0].value, ast.Constant)) else 0
+                if len(body) - start0 < 6:
+                    continue
+                n = len(body) - start0
+                lo, hi = start0 + n // 3, start0 + n // 3 + max(2, n // 3)
+                blk = body[lo:hi]
+                if any(isinstance(x, (ast.Return, ast.Break, ast.Continue, ast.Yield, ast.YieldFrom, ast.FunctionDef, ast.Lambda, ast.Global, ast.Nonlocal, ast.Delete, ast.Try, ast.With)) for s in blk for x in ast.walk(s)):
+                    continue
+                params = {a.arg for a in fn.args.posonlyargs + fn.args.args + fn.args.kwonlyargs} | ({fn.args.vararg.arg} if fn.args.vararg else set()) | ({fn.args.kwarg.arg} if fn.args.kwarg else set())
+                local_names = params | {x.id for x in ast.walk(fn) if isinstance(x, ast.Name) and isinstance(x.ctx, ast.Store)}
+                reads = []
+                for s in blk:
+                    for x in ast.walk(s):
+                        if isinstance(x, ast.Name) and isinstance(x.ctx, ast.Load) and x.id in local_names and x.id != "self" and x.id not in reads:
+                            reads.append(x.id)
+                        if isinstance(x, ast.AugAssign) and isinstance(x.target, ast.Name) and x.target.id not in reads:
+                            reads.append(x.target.id)
+                writes = []
+                for s in blk:
+                    for x in ast.walk(s):
+                        if isinstance(x, ast.Name) and isinstance(x.ctx, ast.Store) and x.id not in writes:
+                            writes.append(x.id)
+                after = {x.id for s in body[hi:] for x in ast.walk(s) if isinstance(x, ast.Name)}
+                # loops: a name written in the block and read earlier in an enclosing loop cannot happen at top level
+                outs = [w for w in writes if w in after]
+                # a name read in the block before the block binds it on every path must be a parameter; names possibly
+                # unbound before the block (bound only inside it) must not be passed
+                bound_before = params | {x.id for s in body[:lo] for x in ast.walk(s) if isinstance(x, ast.Name) and isinstance(x.ctx, ast.Store)}
+                ins = [r for r in reads if r in bound_before]
+                if any(r not in bound_before and r not in writes for r in reads):
+                    continue
+                counter[0] += 1
+                nm = f"_extracted_{fn.name}_{counter[0]}"
+                ret = ast.Return(value=ast.Tuple(elts=[ast.Name(id=o, ctx=ast.Load()) for o in outs], ctx=ast.Load())) if outs else None
+                newf = ast.FunctionDef(name=nm, args=ast.arguments(posonlyargs=[], args=[ast.arg(arg="self")] + [ast.arg(arg=i) for i in ins], kwonlyargs=[], kw_defaults=[], defaults=[]), body=list(blk) + ([ret] if ret else []), decorator_list=[], type_params=[])
+                call = ast.Call(func=ast.Attribute(value=ast.Name(id="self", ctx=ast.Load()), attr=nm, ctx=ast.Load()), args=[ast.Name(id=i, ctx=ast.Load()) for i in ins], keywords=[])
+                if outs:
+                    st = ast.Assign(targets=[ast.Tuple(elts=[ast.Name(id=o, ctx=ast.Store()) for o in outs], ctx=ast.Store())], value=call)
+                else:
+                    st = ast.Expr(value=call)
+                fn.body = body[:lo] + [st] + body[hi:]
+                new_methods.append(newf)
+            cls_.body.extend(new_methods)
+        return ast.unparse(ast.fix_missing_locations(tree))
     if kind == "numpy":
         has = any(isinstance(n, ast.Import) and any(a.name == "numpy" and a.asname == "np" for a in n.names) for n in ast.walk(tree))
         if not has:
